@@ -146,6 +146,11 @@ def lock_variants(kind):
         "negative": b"next_reference_id: -4\n",
         "noninteger": b"next_reference_id: abc\n",
         "bare": b"next_reference_id: 42\n",
+        # valid locks that are LONGER than what the tool writes: explicit document start (older layout),
+        # CRLF line ends, trailing comment lines left by a hand merge
+        "valid_doc100": lock_bytes(100).replace(b"next_reference_id", b"---\nnext_reference_id"),
+        "valid_crlf100": lock_bytes(100).replace(b"\n", b"\r\n"),
+        "valid_tail100": lock_bytes(100) + b"# merged by hand\n# keep this line\n",
         # not YAML a lock can be, although a line of it looks like one: unresolved merge, duplicated key
         "conflict": b"<<<<<<< HEAD\nnext_reference_id: 3\n=======\nnext_reference_id: 5\n>>>>>>> branch\n",
         "dupkey": b"next_reference_id: 3\nnext_reference_id: 5\n",
